@@ -1,8 +1,39 @@
 package server
 
-// C19 harness, part 4: shapes of known findings that the generator avoids
-// (VERIF_NOEXCLUDE=<name> switches an exclusion off).
+// C19 harness, part 4: shapes of known findings that the generator avoids by
+// construction (VERIF_NOEXCLUDE=<name> switches an exclusion off; the driver
+// re-checks a known finding by replaying its file).
 
-func init() {
-	c19KnownShapes = []c19KnownShape{}
+import (
+	"encoding/json"
+	"strings"
+
+	"github.com/sanonone/kektordb/internal/verifkit"
+)
+
+// knownName neutralises an index name that has the shape of finding
+// "index-name-escape": <data>/arenas/<name> resolves outside <data>.
+func (g *c19G) knownName(name string) string {
+	if verifkit.Known("index-name-escape") && c19Escapes(name) {
+		g.excluded = append(g.excluded, "index-name-escape")
+		return strings.ReplaceAll(name, "..", "dd")
+	}
+	return name
+}
+
+// applyKnown rewrites known-finding shapes in the (possibly mutated) fields of a request.
+func (g *c19G) applyKnown(r c19Route, fs []c19KV) {
+	if c19IsCreate(r) {
+		for i := range fs {
+			if fs[i].k != "index_name" {
+				continue
+			}
+			var name string
+			if json.Unmarshal([]byte(fs[i].v), &name) == nil {
+				if n2 := g.knownName(name); n2 != name {
+					fs[i].v = c19Q(n2)
+				}
+			}
+		}
+	}
 }
